@@ -82,6 +82,8 @@ thread_local! {
     static LAST_PANIC: std::cell::RefCell<Option<String>> = const { std::cell::RefCell::new(None) };
 }
 
+static LAST_PANIC_GLOBAL: Mutex<Option<String>> = Mutex::new(None);
+
 pub fn init_panic_hook() {
     std::panic::set_hook(Box::new(|info| {
         let loc = info.location().map(|l| format!("{}:{}", l.file(), l.line())).unwrap_or_default();
@@ -95,7 +97,20 @@ pub fn init_panic_hook() {
         if std::env::var("VERIF_BACKTRACE").is_ok() {
             eprintln!("PANIC {msg} @ {loc}\n{}", std::backtrace::Backtrace::force_capture());
         }
-        LAST_PANIC.with(|p| *p.borrow_mut() = Some(format!("{msg} @ {loc}")));
+        // short backtrace of library frames (panics are rare, so the capture cost does not matter)
+        let bt = std::backtrace::Backtrace::force_capture().to_string();
+        let frames = bt
+            .lines()
+            .filter(|l| (l.contains("vrp_") || l.contains("rosomaxa::")) && !l.trim_start().starts_with("at "))
+            .map(|l| l.trim().split_once(": ").map(|x| x.1).unwrap_or(l.trim()).to_string())
+            .take(10)
+            .collect::<Vec<_>>()
+            .join(" <- ");
+        let full = format!("{msg} @ {loc} [{frames}]");
+        if let Ok(mut g) = LAST_PANIC_GLOBAL.lock() {
+            *g = Some(full.clone());
+        }
+        LAST_PANIC.with(|p| *p.borrow_mut() = Some(full));
     }));
 }
 
@@ -105,7 +120,8 @@ pub fn guard<T>(f: impl FnOnce() -> T) -> Result<T, String> {
     match catch_unwind(AssertUnwindSafe(f)) {
         Ok(v) => Ok(v),
         Err(payload) => {
-            let from_hook = LAST_PANIC.with(|p| p.borrow_mut().take());
+            // a panic inside a worker thread (rayon) is recorded by the hook in that thread: fall back to the global slot
+            let from_hook = LAST_PANIC.with(|p| p.borrow_mut().take()).or_else(|| LAST_PANIC_GLOBAL.lock().ok().and_then(|mut g| g.take()));
             let msg = from_hook.unwrap_or_else(|| {
                 if let Some(s) = payload.downcast_ref::<&str>() {
                     s.to_string()
@@ -336,6 +352,8 @@ impl<P: Prop> DynProp for P {
                     let mut runner = TestRunner::new(config);
                     let failed = AtomicBool::new(false);
                     let last_failure: Mutex<Option<Failure>> = Mutex::new(None);
+                    // the first failing (unshrunk) case: used when the shrunk one does not reproduce (randomised code under test)
+                    let first_failing: Mutex<Option<(P::Case, Failure)>> = Mutex::new(None);
                     // Stats are only counted until the first failure of this shard (proptest
                     // re-runs the closure while shrinking).
                     let local_frozen = AtomicBool::new(false);
@@ -355,6 +373,12 @@ impl<P: Prop> DynProp for P {
                                 local_frozen.store(true, Ordering::Relaxed);
                                 failed.store(true, Ordering::Relaxed);
                                 let msg = f.message.clone();
+                                {
+                                    let mut ff = first_failing.lock().unwrap();
+                                    if ff.is_none() {
+                                        *ff = Some((case.clone(), f.clone()));
+                                    }
+                                }
                                 *last_failure.lock().unwrap() = Some(f);
                                 Err(TestCaseError::fail(msg))
                             }
@@ -366,15 +390,20 @@ impl<P: Prop> DynProp for P {
                             // re-evaluate minimal case to get its exact failure
                             let scratch = Stats::new();
                             let res = guard(|| self.check(&case, &scratch));
+                            let mut case = case;
                             let failure = match res {
                                 Ok(Err(f)) => f,
                                 Err(panic) => Failure::new(format!("panic:{}", panic_site(&panic)), format!("panic: {panic}")),
-                                Ok(Ok(())) => last_failure
-                                    .lock()
-                                    .unwrap()
-                                    .clone()
-                                    .map(|f| Failure::new(f.signature, format!("(not reproduced on re-run of shrunk case) {}", f.message)))
-                                    .unwrap_or_else(|| Failure::new("unknown", "unknown")),
+                                Ok(Ok(())) => {
+                                    // shrunk case is flaky: report the first failing case as generated (with its failure)
+                                    match first_failing.lock().unwrap().clone() {
+                                        Some((orig, f)) => {
+                                            case = orig;
+                                            Failure::new(f.signature, format!("(randomised: shrunk case did not reproduce, this is the first failing case as generated) {}", f.message))
+                                        }
+                                        None => last_failure.lock().unwrap().clone().unwrap_or_else(|| Failure::new("unknown", "unknown")),
+                                    }
+                                }
                             };
                             found.lock().unwrap().push(Found {
                                 prop: Prop::name(self).to_string(),
@@ -407,7 +436,8 @@ impl<P: Prop> DynProp for P {
 
 /// Extracts "file:line" of a panic message produced by the hook.
 pub fn panic_site(msg: &str) -> String {
-    msg.rsplit(" @ ").next().unwrap_or("").to_string()
+    let tail = msg.rsplit(" @ ").next().unwrap_or("");
+    tail.split(" [").next().unwrap_or(tail).to_string()
 }
 
 // ---------------------------------------------------------------------------------------------
